@@ -148,15 +148,17 @@ func runScript() {
 		}
 		evs = append(evs, e)
 	}
-	sb := os.Getenv("VERIF_SCRATCH")
-	if st, err := os.Stat("/dev/shm"); err == nil && st.IsDir() {
-		sb = "/dev/shm"
+	// same naming as the engine's private tmpfs directory, so a killed replay is cleaned up by the next run
+	root := fastScratch()
+	if root == "" {
+		var err error
+		if root, err = os.MkdirTemp(os.Getenv("VERIF_SCRATCH"), "verif-C08-script-"); err != nil {
+			fmt.Println(err)
+			os.Exit(3)
+		}
 	}
-	base, err := os.MkdirTemp(sb, "verif-C08-script-")
-	if err != nil {
-		fmt.Println(err)
-		os.Exit(3)
-	}
+	defer os.RemoveAll(root)
+	base := filepath.Join(root, "script")
 	seed, _ := strconv.ParseInt(os.Getenv("VERIF_SEED"), 10, 64)
 	r := runSequence(base, seed, 0, evs)
 	for i, t := range r.Trace {
@@ -172,6 +174,7 @@ func runScript() {
 		fmt.Printf("VIOLATION %s: %s\n", v.Class, v.Message)
 	}
 	if len(r.Violations) > 0 {
+		_ = os.RemoveAll(root)
 		os.Exit(1)
 	}
 }
